@@ -294,6 +294,9 @@ class H2ServerPeer(_H2Base):
         self.max_open_seen = 0
         self.settings_sent = 0
         self.finished_answers: set = set()  # stream ids whose scripted answer was sent completely
+        self._raw = bytearray()
+        self._preface_done = False
+        self.stale_headers_tolerated = 0  # HEADERS frames for already closed streams that were exempted from the limit check
 
     # the limit the h2 library currently enforces for inbound streams (changes when the proxy ACKs our SETTINGS)
     def enforced_limit(self):
@@ -331,9 +334,52 @@ class H2ServerPeer(_H2Base):
         self.limit_log.append((self.driver.step_no, self.enforced_limit()))
 
     def on_data(self, data):
-        super().on_data(data)
+        # Feed hyper-h2 one frame at a time.  Reason: H2Connection._receive_headers_frame applies the MAX_CONCURRENT_STREAMS
+        # check to ANY HEADERS frame whose stream id is no longer in its stream table -- also to request trailers that were
+        # already in flight towards a stream this peer has reset (the table entry of a closed stream is dropped lazily).  Such a
+        # frame does not open a stream (RFC 9113 5.1: frames on a stream the receiver reset must be tolerated for a while), the
+        # library would go on to ignore it, but with the limit reached it raises TooManyStreamsError first.  For exactly those
+        # frames (HEADERS, id <= highest id seen, not in the table) the limit check is suspended; genuinely new streams
+        # (higher id) are still refused when they exceed the limit this peer advertised and the proxy ACKed.
+        self._raw += data
+        while not self.dead:
+            unit, lenient = self._next_unit()
+            if unit is None:
+                break
+            if lenient:
+                self.stale_headers_tolerated += 1
+                cur = self.h2.local_settings._settings[h2.settings.SettingCodes.MAX_CONCURRENT_STREAMS]
+                old = cur[0]
+                cur[0] = 2**32
+                try:
+                    super().on_data(unit)
+                finally:
+                    cur[0] = old
+            else:
+                super().on_data(unit)
         if self.h2 is not None:
             self.max_open_seen = max(self.max_open_seen, self.h2.open_inbound_streams)
+
+    def _next_unit(self):
+        raw = self._raw
+        if not self._preface_done:
+            if len(raw) < len(PREFACE):
+                return None, False
+            unit = bytes(raw[: len(PREFACE)])
+            del raw[: len(PREFACE)]
+            self._preface_done = True
+            return unit, False
+        if len(raw) < 9:
+            return None, False
+        length = int.from_bytes(raw[:3], "big")
+        if len(raw) < 9 + length:
+            return None, False
+        ftype = raw[3]
+        sid = int.from_bytes(raw[5:9], "big") & 0x7FFFFFFF
+        unit = bytes(raw[: 9 + length])
+        del raw[: 9 + length]
+        lenient = ftype == 1 and sid % 2 == 1 and sid <= self.h2.highest_inbound_stream_id and sid not in self.h2.streams
+        return unit, lenient
 
     def on_headers(self, sid, rec):
         if self.respond_on == "headers":
